@@ -515,21 +515,23 @@ Definition pl_convert (p : op) (res : loc) : M loc :=
   derive2 KConvert x s (fun a _ => pl_unary p a)))).
 (* _natural_join_step (Polars): with_columns(scratch key) on both inputs when there are no keys, join(coalesce=False),
    with_columns(when/then coalescing of every shared column), select(columns_produced): new frames only *)
-Definition pl_scratch (f : frame) : frame := mkframe IxRange (f_cols f ++ ["_da_join_scratch_key"]) (f_nrows f) (PF "with_scratch" [] [f_data f]).
+Definition pl_scratch_name (fa fb : frame) : string :=          (* _unused_column_name("_da_join_scratch_key", names_in_use) *)
+  unused_name (S (List.length (in_use fa fb))) "_da_join_scratch_key" (in_use fa fb).
+Definition pl_scratch (nm : string) (f : frame) : frame := mkframe IxRange (f_cols f ++ [nm]) (f_nrows f) (PF "with_scratch" [nm] [f_data f]).
 Definition pl_select (fa fb : frame) (nr : nat) (fc : frame) : frame :=
   mkframe IxRange (f_cols fa ++ diff (f_cols fb) (f_cols fa)) nr (PF "select" [] [f_data fc]).
 Definition pl_c_join (p : op) (on_a : list string) (nr : nat) (fa fb : frame) : frame :=
-  let fa' := if isnil on_a then pl_scratch fa else fa in
-  let fb' := if isnil on_a then pl_scratch fb else fb in
+  let fa' := if isnil on_a then pl_scratch (pl_scratch_name fa fb) fa else fa in
+  let fb' := if isnil on_a then pl_scratch (pl_scratch_name fa fb) fb else fb in
   let j := pl_binary p fa' fb' in
   pl_select fa fb nr (if isnil (inter (f_cols fa) (f_cols fb)) then j else fr_piece "coalesce" j).
 Definition pl_join (p : op) (on_a : list string) (nr : nat) (la lb : loc) : M loc :=
   bind (rd KJoin la) (fun fa => bind (rd KJoin lb) (fun fb =>
-  bind (if isnil on_a then derive KJoin la pl_scratch else ret la) (fun a' =>
-  bind (if isnil on_a then derive KJoin lb pl_scratch else ret lb) (fun b' =>
-  bind (derive2 KJoin a' b' (pl_binary p)) (fun j =>
-  bind (if isnil (inter (f_cols fa) (f_cols fb)) then ret j else derive KJoin j (fr_piece "coalesce")) (fun c =>
-  derive KJoin c (pl_select fa fb nr))))))).
+  bind (if isnil on_a then derive KJoin la (pl_scratch (pl_scratch_name fa fb)) else ret la) (fun a' =>   (* d.with_columns(lit(1).alias(scratch)) *)
+  bind (if isnil on_a then derive KJoin lb (pl_scratch (pl_scratch_name fa fb)) else ret lb) (fun b' =>
+  bind (derive2 KJoin a' b' (pl_binary p)) (fun j =>                                                     (* join(coalesce=False, suffix=unused suffix) *)
+  bind (if isnil (inter (f_cols fa) (f_cols fb)) then ret j else derive KJoin j (fr_piece "coalesce")) (fun c =>   (* with_columns(when/then) *)
+  derive KJoin c (pl_select fa fb nr))))))).                                                            (* select(columns_produced) *)
 Fixpoint plexec (env : env_locs) (p : op) : M loc :=
   match p with
   | Table name cols => pl_table env name cols
